@@ -48,6 +48,20 @@ def parse_kv(rest):
     return pos, out
 
 
+# fragments shared between units: the functions of a fragment are VERIFIED in its owner unit; every other unit that
+# includes the fragment sees them by contract only (emitted with #[verifier::external_body], body ignored by Verus).
+# None = verified wherever included (specs / cheap lemmas).
+FRAG_OWNER = {
+    'frag/enc_pos_fns': 'enc_pos',
+    'frag/enc_specs': None,
+    'frag/seq_lemmas': None,
+    'frag/blocks_dump': 'blocks',
+    'frag/blocks_from': 'blocks',
+    'frag/awriter_body': 'awriter',
+    'frag/position_layer': 'raw_pos',
+}
+
+
 class Gen:
     def __init__(self, unit, false_twin=False):
         self.unit = unit
@@ -63,6 +77,8 @@ class Gen:
         self.tmpl_path = os.path.join(VERIF, 'units', unit + '.vrs')
         self._cur_label = None
         self._cur_fn = None
+        self._foreign = 0          # >0 while processing a fragment owned by another unit
+        self.deps = set()          # owner units of the foreign fragments included
 
     # ------------------------------------------------------------------ emit
     def emit(self, text, origin):
@@ -132,7 +148,14 @@ class Gen:
                 elif cmd == 'include':
                     self.close_label()
                     for name in rest.split():
+                        owner = FRAG_OWNER.get(name, self.unit)
+                        foreign = owner is not None and owner != self.unit
+                        if foreign:
+                            self._foreign += 1
+                            self.deps.add(owner)
                         self.include(os.path.join(VERIF, 'units', name + '.vrs'), 'tmpl')
+                        if foreign:
+                            self._foreign -= 1
                 elif cmd in ('label', 'endlabel'):
                     self.feed(line, (kind, path, i + 1))
                 elif cmd == 'fn':
@@ -285,6 +308,7 @@ class Gen:
             it = rs.find_fn(fsrc, kv['name'], kv.get('impl'), kv['file'], kv.get('mod'))
         except LookupError as e:
             raise Undecided(f'lost anchor for {fid}: {e}')
+        foreign = self._foreign > 0
         fn = {'id': fid, 'props': props, 'file': kv['file'], 'name': kv['name'],
               'repo_lines': [it.line_start, it.line_end], 'sha256': sha(it.text), 'rule_hits': {},
               'kind': 'fn', 'gen_start': len(self.lines) + 1, 'implements': kv.get('implements')}
@@ -412,8 +436,10 @@ class Gen:
                 k = q + 1
             body_lines[k:k] = [(t, ('tmpl', path, ln)) for t, ln in hl]
         def emit_copy(twin):
-            if twin:
+            if twin or foreign:
                 self._no_labels = True
+            if foreign:
+                self.emit('#[verifier::external_body] // verified in its owner unit; used here by contract only', (kind, path, 0))
             first = len(self.lines)
             in_ens = False
             saw_ens = False
@@ -446,8 +472,10 @@ class Gen:
         emit_copy(False)
         fn['gen_end'] = len(self.lines)
         fn['loops'] = len(heads)
+        if foreign:
+            fn['kind'] = 'foreign'
         self.fns.append(fn)
-        if self.false_twin and kv.get('twin', 'yes') != 'no':
+        if self.false_twin and kv.get('twin', 'yes') != 'no' and not foreign:
             tw = dict(fn, id=fn['id'] + '#twin', kind='twin', gen_start=len(self.lines) + 1)
             self._cur_fn = tw
             emit_copy(True)
@@ -487,7 +515,7 @@ class Gen:
         return '\n'.join(self.lines) + '\n'
 
     def meta(self):
-        return {'unit': self.unit, 'fns': self.fns, 'labels': self.labels, 'rule_hits': self.rule_hits,
+        return {'unit': self.unit, 'deps': sorted(self.deps), 'fns': self.fns, 'labels': self.labels, 'rule_hits': self.rule_hits,
                 'struct_checks': self.struct_checks, 'notes': self.notes,
                 'consts': {f'{k[0]}::{k[1]}': (v[1] if not isinstance(v[1], bytes) else v[1].decode('latin1'))
                            for k, v in self.consts.items()}}
